@@ -702,6 +702,12 @@ def eval_tree(text: str, shapes: dict) -> Optional[int]:
             break
         if head == "Add":
             return args[0] + args[1]
+        if head == "Sub":
+            return args[0] - args[1]
+        if head == "Neg":
+            return -args[0]
+        if head == "Abs":
+            return abs(args[0])
         if head == "Mul":
             return args[0] * args[1]
         if head == "Pow":
